@@ -295,6 +295,16 @@ class G:
         while self.pr("member_instr", 0.35) and n < 4:
             out.append(self.member_map_instr(cparts, target_named=target_named, nfields=nfields))
             n += 1
+        if self.pr("try_pair", 0.0):
+            # a fallible instruction next to its infallible twin, naming different counterpart members
+            base = self.ch(["from", "into", "map", "map_owned", "from_owned", "owned_into", "ref_into", "from_ref", "map_ref"])
+            ded = (self.ch(cparts) + "| ") if cparts and self.pr("dedicated", 0.25) and not cparts[0].startswith("(") else ""
+            if "(" in ded:
+                ded = ""
+            t1 = self.ch(OTHER) if target_named else str(r.randrange(0, max(1, nfields)))
+            t2 = self.ch(OTHER) if target_named else str(r.randrange(0, max(1, nfields)))
+            out.append(Instr(try_name(base), ded + t1 + self.ch(["", "", ", ~.clone()"]), tag=("mmap", ded[:-2] if ded else None)))
+            out.append(Instr(base, ded + t2 + self.ch(["", "", ", ~ + 1"]), tag=("mmap", ded[:-2] if ded else None)))
         if self.pr("as_type", 0.05):
             ded = (self.ch(cparts) + "| ") if cparts and self.pr("dedicated", 0.25) and not self.ch(cparts).startswith("(") else ""
             if ded.startswith("("):
@@ -451,7 +461,7 @@ class G:
         vs = []
         nv = r.randrange(self.p.get("min_variants", 1), self.p.get("max_variants", 4) + 1)
         for k in range(nv):
-            shape = self.ch(["unit", "unit", "tuple", "named"])
+            shape = self.ch(["unit", "unit", "tuple", "named"]) if not self.pr("payload_heavy", 0.0) else self.ch(["tuple", "named", "named"])
             nf = 0 if shape == "unit" else r.randrange(0 if self.pr("empty_payload", 0.1) else 1, 3)
             vat = []
             if prim:
@@ -566,7 +576,14 @@ class G:
                     attrs.insert(len(attrs) - 1, cp2)
         if self.pr("ghosts", 0.15) and used_prefixes:
             pth = self.ch(used_prefixes)
-            attrs.append(Instr(self.ch(["ghosts", "ghosts_owned"]), ".".join(pth) + "@" + self.ch(["gx", "0"]) + ": { 7 }" + (", top: { 1 }" if self.pr("x", 0.3) else ""), tag=("ghosts", None)))
+            ded = (self.ch(cparts) + "| ") if self.pr("child_ghosts_ded", 0.2) else ""
+            attrs.append(Instr(self.ch(["ghosts", "ghosts_owned"]), ded + ".".join(pth) + "@" + self.ch(["gx", "0"]) + ": { 7 }" + (", top: { 1 }" if self.pr("x", 0.3) else ""), tag=("ghosts", None)))
+            if ded and self.pr("x", 0.6):
+                # a second instruction (another counterpart, or the default) with an entry under the same child path
+                others = [c for c in cparts if c + "| " != ded]
+                d2 = (self.ch(others) + "| ") if others and self.pr("x", 0.6) else ""
+                g2 = Instr(self.ch(["ghosts", "ghosts_owned", "ghosts_ref"]), d2 + ".".join(self.ch([pth, self.ch(used_prefixes)])) + "@" + self.ch(["gx", "gy", "0"]) + ": { 8 }", tag=("ghosts", None))
+                attrs.insert(r.randrange(len(attrs) + 1), g2)
         if self.pr("interleave", 0.5):
             r.shuffle(fields)
             for k, f in enumerate(fields):
@@ -649,17 +666,19 @@ PROFILES = {
     "traits": {"max_fields": 2, "multi_instr": 0.8, "multi_cpart": 0.5, "fallible": 0.5, "generic_cpart": 0.3, "odd_cpart": 0.3, "odd_err": 0.5,
                "tuple_cpart": 0.1, "member_instr": 0.05, "shuffle_type_attrs": 0.8, "hints": 0.2},
     "member-instrs": {"lit_args": 0.08, "min_fields": 1, "max_fields": 2, "member_instr": 0.85, "member_try": 0.4, "dedicated": 0.45, "multi_cpart": 0.7, "multi_instr": 0.7,
-                      "fallible": 0.5, "ghost_field": 0.25, "ghost_pair": 0.4, "ghost_flavour": 0.5, "hints": 0.2},
+                      "fallible": 0.5, "ghost_field": 0.25, "ghost_pair": 0.4, "ghost_flavour": 0.5, "hints": 0.2, "try_pair": 0.2},
     "enum": {"max_variants": 4, "member_instr": 0.3, "variant_map": 0.35, "type_hint": 0.2, "variant_ghost": 0.12, "ghosts": 0.12,
-             "default_case": 0.3, "fallible": 0.35, "multi_cpart": 0.25, "dedicated": 0.3, "variant_ghosts": 0.08, "ghost_field": 0.1},
+             "default_case": 0.3, "fallible": 0.35, "multi_cpart": 0.25, "dedicated": 0.3, "variant_ghosts": 0.08, "ghost_field": 0.1, "try_pair": 0.12},
+    "enum-members": {"max_variants": 3, "payload_heavy": 0.85, "member_instr": 0.55, "member_try": 0.4, "try_pair": 0.35, "fallible": 0.6, "dedicated": 0.3,
+                     "multi_cpart": 0.3, "type_hint": 0.25, "multi_instr": 0.5, "ghost_field": 0.1, "variant_map": 0.2},
     "enum-prim": {"enum_prim": 1.0, "max_variants": 5, "default_case": 0.6, "fallible": 0.4, "lit": 0.6, "pat": 0.7},
-    "tree": {"max_fields": 6, "max_depth": 3, "member_instr": 0.3, "fallible": 0.3, "multi_cpart": 0.25, "hints": 0.2, "ghosts": 0.15, "dedicated": 0.25, "mixed_levels": 0.3},
+    "tree": {"max_fields": 6, "max_depth": 3, "member_instr": 0.3, "fallible": 0.3, "multi_cpart": 0.3, "hints": 0.2, "ghosts": 0.2, "dedicated": 0.25, "mixed_levels": 0.3, "child_ghosts_ded": 0.35},
     "trait-params": {"max_fields": 3, "vars": 0.5, "attr_params": 0.4, "update": 0.3, "quick_return": 0.2, "default_case": 0.4, "trait_repeat": 0.3,
                      "multi_instr": 0.7, "fallible": 0.4, "member_instr": 0.3},
     "repeat": {"max_fields": 6, "min_fields": 2, "member_repeat": 0.35, "member_instr": 0.5, "ghost_field": 0.15, "max_variants": 4, "variant_map": 0.3,
                "trait_repeat": 0.4, "vars": 0.3, "update": 0.2, "multi_instr": 0.6, "type_hint": 0.2},
     "multi-counterpart": {"multi_cpart": 1.0, "dedicated": 0.6, "member_instr": 0.6, "ghost_field": 0.2, "ghosts": 0.3, "where_clause": 0.3, "multi_instr": 0.5,
-                          "fallible": 0.3, "variant_map": 0.4, "type_hint": 0.3, "variant_ghost": 0.15, "variant_ghosts": 0.1},
+                          "fallible": 0.3, "variant_map": 0.4, "type_hint": 0.3, "variant_ghost": 0.15, "variant_ghosts": 0.1, "try_pair": 0.15, "child_ghosts_ded": 0.5},
     "generics": {"generics": 1.0, "generic_cpart": 0.7, "where_clause": 0.5, "max_fields": 2, "trailing_comma": 0.2, "multi_cpart": 0.3, "fallible": 0.3, "dedicated": 0.4},
     "expr": {"deep_expr": 0.8, "member_instr": 0.7, "ghost_field": 0.2, "ghosts": 0.2, "vars": 0.4, "update": 0.3, "quick_return": 0.15, "default_case": 0.3,
              "variant_map": 0.5, "max_fields": 3},
@@ -672,7 +691,7 @@ PROFILES = {
                "dedicated": 0.4, "ghosts": 0.2, "where_clause": 0.2, "hints": 0.4, "drop_child_parents": 0.3, "drop_cp_entry": 0.2, "type_hint": 0.3},
 }
 
-KINDS_OF_ITEM = {"shape-change": ["struct", "enum"], "unknowns": ["struct", "enum"], "parents": ["tree"], "trait-repeat": ["trait_repeat"], "enum": ["enum"], "enum-prim": ["enum"], "tree": ["tree"], "repeat": ["struct", "enum"], "multi-counterpart": ["struct", "enum", "tree"],
+KINDS_OF_ITEM = {"shape-change": ["struct", "enum"], "unknowns": ["struct", "enum"], "parents": ["tree"], "trait-repeat": ["trait_repeat"], "enum": ["enum"], "enum-members": ["enum"], "enum-prim": ["enum"], "tree": ["tree"], "repeat": ["struct", "enum"], "multi-counterpart": ["struct", "enum", "tree"],
                  "trait-params": ["struct", "enum"], "generics": ["struct", "enum"], "expr": ["struct", "enum"], "faults": ["struct", "enum", "tree"],
                  "traits": ["struct", "enum"], "struct-flat": ["struct"], "member-instrs": ["struct"]}
 
